@@ -153,6 +153,11 @@ def gen_cases(ctx):
         n = int(rng.choice([2, 3, 12, 40, nmax]))
         yield {"kind": "relations", "system": name, "n": n, "tex": str(rng.choice(["random", "cluster_wide", "cluster", "cluster_tight", "girdle"])),
                "seed": int(rng.integers(1 << 31))}
+    for j in range(ctx.scale(6, 60)):
+        if j % nrs == irel:
+            rng = ctx.rng(5, j)
+            yield {"kind": "halfturn", "system": "triclinic", "seed": int(rng.integers(1 << 31)), "k": int(rng.choice([1, 2, 5, 20])),
+                   "extra": int(rng.choice([0, 0, 1, 3])), "axes": int(rng.choice([1, 3]))}
     if irel == 0:
         for name in names + ["rhombohedral"]:
             yield {"kind": "theory", "system": name}
@@ -198,7 +203,7 @@ def check_case(ctx, case):
     _CTX["ctx"] = ctx
     try:
         return {"relations": _relations, "theory": _theory, "uniform": _uniform, "single": _single,
-                "rhombohedral_call": _rhombo, "pool": _pool}[case["kind"]](ctx, pydrex, case)
+                "rhombohedral_call": _rhombo, "pool": _pool, "halfturn": _halfturn}[case["kind"]](ctx, pydrex, case)
     except IndexRaised as e:
         ctx.check("misorientation_index_returns", False, case, key=f"index_raises/{case.get('system')}", exc=str(e))
     except AssertionError as e:
@@ -263,6 +268,28 @@ def _relations(ctx, pydrex, case):
                       "symmetry_relabel/non-trivial-operator-set", M=M0, Msym=Ms)
     if len(ctx.samples) < 3 and nontriv:
         ctx.sample(case, M=M0, M_permuted=Mp)
+
+
+def _halfturn(ctx, pydrex, case):
+    """Grains related by half turns: every pair angle is exactly 0 or exactly the maximum admissible 180 degrees
+    (triclinic).  Value and range are compared with the independent reference; no rotation relation here."""
+    system = _system(pydrex, "triclinic")
+    rng = np.random.default_rng([int(case["seed"]), 9])
+    base = Rotation.random(random_state=int(rng.integers(1 << 31)))
+    half = [Rotation.from_rotvec(np.pi * np.eye(3)[a]) for a in range(case["axes"])]
+    rots = [base] * case["k"]
+    for h in half:
+        rots += [base * h] * case["k"]
+    A = np.stack([r.as_matrix() for r in rots] + [Rotation.random(random_state=int(rng.integers(1 << 31))).as_matrix() for _ in range(case["extra"])])
+    n = len(A)
+    npairs = n * (n - 1) // 2
+    ctx.case(case, nontrivial=True)
+    M = _M(pydrex, A, system)
+    ref = reference_M_triclinic(pydrex, A)
+    ctx.check("halfturn_range", (not np.isnan(M)) and -1e-3 <= M <= 1 + 1e-3, case, M=M)
+    ctx.check("halfturn_equals_reference", same(M, ref, 5.0 / npairs + 2e-3), case, M=M, ref=ref, n=n)
+    perm = rng.permutation(n)
+    ctx.check("halfturn_permutation_invariant", same(M, _M(pydrex, A[perm], system), 3.0 / npairs + 1e-9), case)
 
 
 def _theory(ctx, pydrex, case):
